@@ -583,11 +583,11 @@ def explore(program, schedules, timeout=60):
     i = 0
     while i < len(schedules):
         r, w = os.pipe()
+        d = env.scratch("vfs")      # owned (and removed) by the parent, whatever happens to the child
         pid = os.fork()
         if pid == 0:
             os.close(r)
             try:
-                d = env.scratch("vfs")
                 for j in range(i, len(schedules)):
                     try:
                         res = execute(program, schedules[j], d)
@@ -599,7 +599,6 @@ def explore(program, schedules, timeout=60):
                     _send(w, (j, res))
                     if res.get("poisoned") or res.get("harness_error"):
                         break
-                shutil.rmtree(d, ignore_errors=True)
             finally:
                 os._exit(0)
         os.close(w)
@@ -627,6 +626,7 @@ def explore(program, schedules, timeout=60):
             os.waitpid(pid, 0)
         except ChildProcessError:
             pass
+        shutil.rmtree(d, ignore_errors=True)
         if last < i:
             raise HarnessError("child died without producing a result")
         i = last + 1
